@@ -4,10 +4,10 @@
 package main
 
 import (
-	"io"
-	"compress/gzip"
 	"bytes"
+	"compress/gzip"
 	"fmt"
+	"io"
 	"os"
 	"path/filepath"
 	"reflect"
@@ -292,6 +292,20 @@ func main() {
 				viol("placeholder-import", fname, fname+"->"+imp.Path(), fmt.Sprintf("the descriptor registered for %s holds a placeholder for its import %s (the imported file was not resolved when the file was built)", fname, imp.Path()), "")
 			} else if reg, err := protoregistry.GlobalFiles.FindFileByPath(imp.Path()); err != nil || reg != imp.FileDescriptor {
 				viol("placeholder-import", fname, fname+"->"+imp.Path(), fmt.Sprintf("import %s of %s is not the file the registry holds under that path (err %v)", imp.Path(), fname, err), "")
+			}
+		}
+		// service methods point at the registered request / response messages themselves
+		for i := 0; i < fd.Services().Len(); i++ {
+			sd := fd.Services().Get(i)
+			for j := 0; j < sd.Methods().Len(); j++ {
+				m := sd.Methods().Get(j)
+				for side, t := range map[string]protoreflect.MessageDescriptor{"input": m.Input(), "output": m.Output()} {
+					h.Eval(true, hz.Hash("C19method", string(m.FullName()), side))
+					reg, err := protoregistry.GlobalFiles.FindDescriptorByName(t.FullName())
+					if t.IsPlaceholder() || err != nil || reg != protoreflect.Descriptor(t) {
+						viol("method-type-not-the-registered-message", fname, string(m.FullName())+"/"+side, fmt.Sprintf("the %s type %s of method %s is not the descriptor the registry holds under that name (placeholder=%v, err %v)", side, t.FullName(), m.FullName(), t.IsPlaceholder(), err), "")
+					}
+				}
 			}
 		}
 		// (b) registries, types
